@@ -83,7 +83,7 @@ class _Worker:
                         out.append((i, {"crash": "bad result json: %r" % e}))
         return out
 
-    def stderr_tail(self, n=3000):
+    def stderr_tail(self, n=30000):
         try:
             self.errf.flush()
             with open(self.errf.name, "rb") as f:
